@@ -342,6 +342,11 @@ def coerce(v, ty):
                 terms += coerce(it, t).terms
             return Val(ty, terms)
         raise TypeError("cannot coerce list to %r" % ty)
+    if isinstance(ty, TOpaque) and ty.sort_name == "Any":
+        # a value the slice does not track: any value fits, nothing is remembered about it
+        if isinstance(v, Val) and v.ty == ty:
+            return v
+        return fresh(ty, "any")
     if isinstance(v, PyDict):
         if isinstance(ty, TMap) and not v.items:
             return empty_map(ty.key, ty.val)
